@@ -4,7 +4,7 @@ renders the truncated value of the chain's window — the pull iterator over the
 the formatter.
 -/
 import Sqroot.Model.EndToEnd
-import Sqroot.Proofs.EndToEnd
+import Sqroot.Proofs.EndToEndFormat
 namespace Sqroot.Proofs
 open Sqroot.Model
 
